@@ -1331,6 +1331,26 @@ func (in *vfGateInst) httpCheck() {
 	}
 	code := do(plain, "GET", "http://"+httpAddr+"/ping")
 	in.out.Case("http 0", show(code))
+	// the gate sits in front of the router: every route (and every non-route) of the plaintext listener
+	// is refused or none is. (Requests chosen so that a routed one has no effect: missing arguments.)
+	for _, rt := range [][2]string{{"GET", "/info"}, {"GET", "/stats"}, {"POST", "/pub"}, {"POST", "/mpub"},
+		{"POST", "/topic/create"}, {"POST", "/topic/delete"}, {"POST", "/topic/empty"}, {"POST", "/topic/pause"},
+		{"POST", "/channel/create"}, {"POST", "/channel/delete"}, {"POST", "/channel/empty"}, {"POST", "/channel/unpause"},
+		{"GET", "/config/nsqlookupd_tcp_addresses"}, {"PUT", "/config/log_level"}, {"GET", "/debug/pprof/cmdline"},
+		{"GET", "/no/such/route"}, {"DELETE", "/ping"}} {
+		rc := do(plain, rt[0], "http://"+httpAddr+rt[1])
+		res := "routed"
+		if rc == 403 {
+			res = "403"
+		} else if rc < 0 {
+			res = "error"
+		}
+		in.out.Case("http 0", res)
+		in.out.checks++
+		if (rc == 403) != (in.cfg.DocTLSRequired() == 2) {
+			in.out.Fail("http-gate:"+rt[1], fmt.Sprintf("plaintext %s %s answered %d with tls-required=%d policy=%q", rt[0], rt[1], rc, in.cfg.TLSReq, in.cfg.Policy))
+		}
+	}
 	in.fresh++
 	probe := fmt.Sprintf("httpprobe%d", in.fresh)
 	before := vfGateSnap(in.nsqd)
